@@ -103,7 +103,7 @@ def gen_blocks(r, depth=0, plain=False, n=None, in_item=False):
                     # a nested list is the last block of its item (known finding C04/blank-after-nested-list)
                     it = [x for x in it if x[0] != "list"] + [x for x in it if x[0] == "list"][:1]
                 items.append(it)
-            b = ("list", ordered, r.choice([1, 1, 2, 7, 10]) if ordered else 1, tight, items)
+            b = ("list", ordered, r.choice([1, 1, 2, 7, 10, 8, 9, 98, 99]) if ordered else 1, tight, items)
         if b[0] == "indented" and prev in ("para",):
             continue
         out.append(b)
@@ -291,9 +291,10 @@ def exp_blocks(bs, escape_url, tight=False):
     return out
 
 
-def normalise(tokens):
+def normalise(tokens, indent_code_newline=False, hits=None):
     """actual tokens -> the same normal form: keep type, raw, children, the attrs the property names, tight;
-    drop blank_line tokens and presentation keys"""
+    drop blank_line tokens and presentation keys.  indent_code_newline: give indented code the trailing
+    newline that re-emitting it as a fenced block adds (known finding C13/indented-code-gains-newline)"""
     out = []
     for t in tokens:
         ty = t["type"]
@@ -302,8 +303,12 @@ def normalise(tokens):
         n = {"type": ty}
         if "raw" in t:
             n["raw"] = t["raw"]
+            if indent_code_newline and ty == "block_code" and t.get("style") == "indent":
+                n["raw"] = t["raw"] + "\n"
+                if hits is not None:
+                    hits.append(t["raw"])
         if "children" in t:
-            n["children"] = normalise(t["children"])
+            n["children"] = normalise(t["children"], indent_code_newline, hits)
             if ty in ("paragraph", "block_text", "heading", "emphasis", "strong", "link", "image"):
                 n["children"] = merge_text(n["children"])
         a = t.get("attrs") or {}
